@@ -56,6 +56,14 @@ PROPS = {
                    'installation of check_<p> hooks in __init_subclass__: bounded stand-in over 6 class layouts'],
         bounded=[CB('limit-contracts', 'contracts/linked.py', 'gens_linked')],
     ),
+    'C17': dict(
+        contract_files=['contracts/persistent.py'],
+        level='proof',
+        trusted_base=COMMON_TRUSTED + ['file system abstracted by a ghost operation log; each operation happens entirely or raises OSError; os.rename atomic'],
+        uncovered=['loading (loadPersistentData: per-entry tolerance), start-up precedence cfg > file > default, exact round trip of values:'
+                   ' bounded stand-in / not covered'],
+        bounded=[CB('persistent-contracts', 'contracts/persistent.py', 'gens_persistent')],
+    ),
     'C07': dict(
         contract_files=['contracts/protocol.py'],
         level='proof',
